@@ -372,9 +372,9 @@ static void fsser_records(const Args &a) {
 }
 
 static void verifier_records(const Args &a) {
-	World W(a.thorough() ? 192 : 128, a.thorough() ? 96 : 64);
+	World W(a.thorough() ? 160 : 128, a.thorough() ? 80 : 64);
 	BarnettSmartVTMF_dlog *A = W.A, *B = W.B;
-	int reps = a.thorough() ? 3 : 1;
+	int reps = a.thorough() ? 2 : 1;
 	for (int rep = 0; rep < reps; rep++) {
 		{   // KeyGenerationProtocol_VerifyNIZK(foo, c, r)
 			Z c, r; A->KeyGenerationProtocol_ComputeNIZK(c, r);
